@@ -7,6 +7,7 @@ import (
 	"encoding/json"
 	"fmt"
 	"math"
+	"time"
 
 	"simlal/sim"
 	"simlal/sim/actors"
@@ -118,6 +119,10 @@ func genC07Plan(r *sim.Rng, tier string) C07Plan {
 	p.Conf = LalConf{RtmpGop: r.Intn(3), FlvEnable: true, FlvGop: r.Intn(3), RtspEnable: true, NoHook: true, ApiEnable: true}
 	p.Sched = GenSched(r, tier == "thorough")
 	p.Transport = []string{"tcp", "udp", "tcp", "udp", "custom", "gb_udp", "gb_udp", "gb_tcp"}[r.Intn(8)]
+	if p.Transport != "gb_udp" && p.Transport != "gb_tcp" {
+		// (a GB28181 session is a listening port: it ends by time-out, not with a connection)
+		p.Conf.MergeWrite = []int{0, 0, 800, 5000}[r.Intn(4)]
+	}
 	switch r.Intn(10) {
 	case 0:
 		p.Video, p.Audio = "avc", ""
@@ -1028,6 +1033,15 @@ func runC07(k *sim.Kernel, p C07Plan) {
 	if gone, why := pub.gone(); gone {
 		k.Violate("C07.publisher-dropped", "lal closed the publishing session of a well-formed stream (%s)", why)
 	}
+	left := false
+	if p.Conf.MergeWrite > 0 {
+		// RTMP players are written to in batches: what is still batched must come out when the input ends
+		pub.leave(k)
+		k.Settle()
+		k.Advance(300 * time.Millisecond)
+		k.Settle()
+		left = true
+	}
 
 	// what can no longer be withheld: single-track streams forward immediately; with two tracks a unit may wait
 	// until the other track has produced something at least as new (2 ms margin for rounding).
@@ -1082,7 +1096,9 @@ func runC07(k *sim.Kernel, p C07Plan) {
 		k.Fault("rtp_reorder_or_dup")
 	}
 	k.Probe("c07_" + p.Transport)
-	pub.leave(k)
+	if !left {
+		pub.leave(k)
+	}
 	k.Settle()
 }
 
